@@ -12,6 +12,8 @@ import TxdbusModel.Obj.Tree
 import TxdbusModel.Proofs.Obj.TreePath
 import TxdbusModel.Proofs.Obj.Tree
 import TxdbusModel.Gen.Validators
+import TxdbusModel.Proofs.Obj.TreeProps
+import TxdbusModel.Properties.C17
 
 namespace Txdbus.C16
 open Txdbus.Obj Txdbus.Obj.Tree Txdbus.Obj.TreeSpec Txdbus.Obj.TreeLemmas Txdbus.Obj.TreePath
@@ -101,22 +103,12 @@ theorem table_objects_sendable (h : List Op) (k : Str) (o : Obj) (hk : lookup (r
     o.sendable = true := by
   rw [lookup_run] at hk; exact exportedAfter_sendable hk
 
-/-
-FULL STATEMENT (property text): "GetManagedObjects on an exported path reports exactly the exported
-objects strictly beneath it, each with all its interfaces and readable properties."
-PROVED below: exactly the objects strictly beneath (one entry per path, keys distinct, root included),
-each with all its interface names (`interface_names_complete`) and, per interface, the token of
-`getAllProperties(interface)` of the object visible there (`interface_dict_complete`).
-MISSING (hence `_partial`): that this token IS "the readable properties of the interface, and only
-those".  That is property C17 (`Txdbus.C17.getall_exact`, model `Obj.Props.getAllProperties`); the two
-models are not linked in Lean - objects are abstract here - the link is made by the harness oracle
-(`managed-objects-content`: the reply is compared with the values the harness gave the object,
-write-only properties excluded).
--/
-/-- GetManagedObjects on an exported valid path (root included) is answered with a method return
-that lists exactly the exported objects strictly beneath it - one entry per path - each with the
-dict built from its interfaces. -/
-theorem managed_eq_spec_partial (h : List Op) (wf : WfHistory h) (p : Path) (hp : ValidPath p)
+/-- The path part of GetManagedObjects on the ABSTRACT model of `Obj/Tree.lean` (objects carry one opaque token
+per interface): on an exported valid path (root included) the reply is a method return that lists exactly the
+exported objects strictly beneath it - one entry per path - each with the dict built from its interfaces.
+The full clause of the property ("each with all its interfaces and readable properties") is `managed_eq_spec`
+below, on the model whose objects have declared properties (C17). -/
+theorem managed_entries_abstract (h : List Op) (wf : WfHistory h) (p : Path) (hp : ValidPath p)
     (o0 : Obj) (hexp : exportedAfter h (render p) = some o0) :
     ∃ ents, handle (run h) (render p) .getManagedObjects = .managed ents ∧
       (ents.map (fun x => x.1)).Nodup ∧
@@ -140,6 +132,139 @@ theorem managed_eq_spec_partial (h : List Op) (wf : WfHistory h) (p : Path) (hp 
       have hqv := ((mem_exportedPaths h q).mp hqE).1
       refine ⟨(startsWith_dirPrefix_ne p q hp hqv).mpr hbelow, o, ?_, rfl⟩
       rw [lookup_run]; exact ho
+
+/-! ### 2b. GetManagedObjects over objects with declared properties (C16 x C17) -/
+
+open Txdbus.Obj.TreeProps in
+/-- **GetManagedObjects reports exactly the exported objects strictly beneath the path, each with exactly
+its interfaces and, per interface, exactly its readable properties with their current values.**
+
+Setting: the combined model `Obj/TreeProps.lean` - instances of a declared class chain (C17's `World`,
+hypotheses as in C17: it elaborates, attributes are consistent, declared types are the modelled ones, the
+repaired configuration), every interface named, exported at valid paths; ANY history `h` of exportObject /
+unexportObject / local assignments / remote Sets (the latter well-formed as in C17); any valid path `p`
+(root included) at which something is exported.  `S` is C17's SPECIFICATION state after the history: the
+value most recently assigned to every property.
+
+1. the reply is `Error.Failed` or one dictionary;
+2. ANY dictionary returned has one entry per path, the paths being exactly the spec's `below p` of the
+   exported paths; the entry of path `k` belongs to the instance `n` the history makes visible at `k`; its
+   keys are exactly the names of the interfaces of the class chain (DBusObject's Properties interface
+   included), each once; and the dict of interface `i` satisfies C17's `GetAllAllowed` - it lists exactly
+   the readable declared properties of `i` (never a write-only one, none twice, none missing), each one that
+   holds a value of its type with that value, typed as declared (this is `Txdbus.Properties.C17.getall_exact`, used,
+   not re-proved);
+3. when every readable property of every instance beneath `p` holds a value of its type, the reply IS a
+   dictionary. -/
+theorem managed_eq_spec {D : Props.Decls} (E : Env) (hD : Props.elaborate D = some E.W)
+    (hA : Props.AttrConsistent E.W) (hM : Props.Modelled E.W) (hc : E.cfg.Sound)
+    (hn : ∀ f ∈ E.W.ifaces, f.name ≠ [])
+    (h : List TreeProps.Op) (hg : GoodOps h) (hv : ∀ n, TreeProps.Op.export n ∈ h → ValidText (E.pathOf n))
+    (p : Path) (hp : ValidPath p) (hexp : (exportedAfter (absHist E h) (render p)).isSome = true) :
+    let reply := handleManaged E (TreeProps.run E h) (render p)
+    let S := Props.specRun E.cfg E.W (propHist E h)
+    (reply = .managedFailed ∨ ∃ ents, reply = .managed ents) ∧
+    (∀ ents, reply = .managed ents →
+      (ents.map (·.1)).Nodup ∧
+      (∀ k, k ∈ ents.map (·.1) ↔ ∃ q, q ∈ below p (exportedPaths (absHist E h)) ∧ k = render q) ∧
+      ∀ k d, (k, d) ∈ ents → ∃ n, exportedAfter (absHist E h) k = some (tabObj E n) ∧
+        (keys d).Nodup ∧ (∀ i, i ∈ keys d ↔ i ∈ E.W.ifaces.map (·.name)) ∧
+        ∀ i l, (i, l) ∈ d → PropsSpec.GetAllAllowed (Props.sdeclOf E.W) S n i [.retD l]) ∧
+    ((∀ q n, q ∈ below p (exportedPaths (absHist E h)) →
+        exportedAfter (absHist E h) (render q) = some (tabObj E n) →
+        ∀ sp ∈ (Props.sdeclOf E.W).props, sp.readable = true →
+          ∃ v, S.val n sp.iface sp.name = some v ∧ PropsSpec.HasTypeSig sp.sig v = true) →
+      ∃ ents, reply = .managed ents) := by
+  intro reply S
+  have wf : WfHistory (absHist E h) := wf_absHistFrom E State.init h hv
+  have hkeys := keys_run_abs E h
+  have hI := inv_run E h
+  have hgood : Props.GoodHist (propHist E h) := goodHist_propHistFrom E State.init h hg
+  have hpst := pst_eq E h
+  have hSim := Txdbus.Properties.C17.reachable_state_refines_spec hD hA hM hc hgood
+  -- the object at p
+  rw [lookup_run_abs] at hexp
+  obtain ⟨n0, hn0⟩ : ∃ n0, lookup (TreeProps.run E h).exports (render p) = some n0 := by
+    cases hl : lookup (TreeProps.run E h).exports (render p) with
+    | none => rw [hl] at hexp; cases hexp
+    | some n0 => exact ⟨n0, rfl⟩
+  have hpath : E.pathOf n0 = render p := (hI _ _ hn0).2
+  have hreply : reply = match managedReply E (TreeProps.run E h) (render p) with
+      | some ents => .managed ents | none => .managedFailed := by
+    simp only [reply, handleManaged, hn0, hpath]
+    cases managedReply E (TreeProps.run E h) (render p) <;> rfl
+  -- what C17 says about one interface dict of an exported instance
+  have hget : ∀ k n i l, lookup (TreeProps.run E h).exports k = some n → i ∈ E.W.ifaces.map (·.name) →
+      ifaceDict E (TreeProps.run E h).pst n i = some l →
+      PropsSpec.GetAllAllowed (Props.sdeclOf E.W) S n i [.retD l] := by
+    intro k n i l hk hi hl
+    have hatt : n ∈ (Props.run E.cfg E.W (propHist E h)).attached := by rw [← hpst]; exact (hI k n hk).1
+    have hi0 : i ≠ [] := by
+      obtain ⟨f, hf, rfl⟩ := List.mem_map.mp hi
+      exact hn f hf
+    have := (Txdbus.Properties.C17.getall_exact hD hA hM hc hgood n i hi0 ((hSim.att n).mp hatt)).1
+    have hstep : (Props.step E.cfg E.W (Props.run E.cfg E.W (propHist E h)) (.getAll n i)).2 = [.retD l] := by
+      simp only [Props.step, hatt, if_true]
+      rw [← hpst, opGetAll_of_ifaceDict E _ n i l hi hl]
+    rw [hstep] at this
+    exact this
+  refine ⟨?_, ?_, ?_⟩
+  · rw [hreply]
+    cases managedReply E (TreeProps.run E h) (render p) with
+    | none => exact Or.inl rfl
+    | some ents => exact Or.inr ⟨ents, rfl⟩
+  · intro ents hents
+    rw [hreply] at hents
+    cases hm : managedReply E (TreeProps.run E h) (render p) with
+    | none => rw [hm] at hents; cases hents
+    | some ents' =>
+      rw [hm] at hents
+      cases hents
+      obtain ⟨hk1, hk2⟩ := managedReply_spec E _ _ _ hm
+      refine ⟨?_, ?_, ?_⟩
+      · rw [hk1]
+        exact nodup_managedKeys _ _ (by rw [hkeys]; exact nodup_keys_run _)
+      · intro k
+        rw [hk1]
+        exact mem_managedKeys_iff_below (absHist E h) wf _ hkeys p hp k
+      · intro k d hkd
+        obtain ⟨_, n, hln, hdn⟩ := hk2 k d hkd
+        obtain ⟨d1, d2, d3⟩ := objDict_spec E _ n d hdn
+        refine ⟨n, by rw [lookup_run_abs, hln]; rfl, d1, d2, fun i l hil => ?_⟩
+        have hi : i ∈ E.W.ifaces.map (·.name) := (d2 i).mp (List.mem_map.mpr ⟨(i, l), hil, rfl⟩)
+        exact hget k n i l hln hi (d3 i l hil)
+  · intro hall
+    rw [hreply]
+    suffices hs : ∃ ents, managedReply E (TreeProps.run E h) (render p) = some ents by
+      obtain ⟨ents, he⟩ := hs
+      exact ⟨ents, by rw [he]⟩
+    apply managedReply_isSome
+    intro k hk
+    obtain ⟨q, hq, rfl⟩ := (mem_managedKeys_iff_below (absHist E h) wf _ hkeys p hp k).mp hk
+    have hkin : render q ∈ keys (TreeProps.run E h).exports := ((mem_managedKeys _ _ _).mp hk).1
+    obtain ⟨n, hln⟩ : ∃ n, lookup (TreeProps.run E h).exports (render q) = some n := by
+      rw [mem_keys_iff] at hkin
+      cases hl : lookup (TreeProps.run E h).exports (render q) with
+      | none => rw [hl] at hkin; cases hkin
+      | some n => exact ⟨n, rfl⟩
+    refine ⟨n, hln, ?_⟩
+    rw [objDict, objDictFrom_isSome, List.all_eq_true]
+    intro f hf
+    have hi : f.name ∈ E.W.ifaces.map (·.name) := List.mem_map.mpr ⟨f, hf, rfl⟩
+    have hatt : n ∈ (Props.run E.cfg E.W (propHist E h)).attached := by rw [← hpst]; exact (hI _ n hln).1
+    have hG := (Txdbus.Properties.C17.getall_exact hD hA hM hc hgood n f.name (hn f hf) ((hSim.att n).mp hatt)).1
+    have hstep : (Props.step E.cfg E.W (Props.run E.cfg E.W (propHist E h)) (.getAll n f.name)).2 =
+        [Props.opGetAll E.cfg E.W (TreeProps.run E h).pst n f.name] := by
+      simp only [Props.step, hatt, if_true]; rw [← hpst]
+    rw [hstep] at hG
+    unfold PropsSpec.GetAllAllowed at hG
+    have hmem : f.name ∈ (Props.sdeclOf E.W).ifaces := by simpa [Props.sdeclOf] using hi
+    rw [if_pos hmem] at hG
+    obtain ⟨l, hl⟩ := hG.2.2 (fun sp hsp hif hr =>
+      hif ▸ hall q n hq (by rw [lookup_run_abs, hln]; rfl) sp hsp hr)
+    simp only [List.cons.injEq, and_true] at hl
+    rw [ifaceDict_of_opGetAll E _ n f.name l hl]
+    rfl
 
 /-! ### 3. UnknownObject -/
 
@@ -285,6 +410,58 @@ example : ValidPath [['a'], ['b']] ∧ exportedAfter hist (render [['a'], ['b']]
 example : children [] (exportedPaths hist) = [['a']] ∧ below [] (exportedPaths hist) = [[['a'], ['b']]] := by
   decide
 
+
+/-! ### `managed_eq_spec`: the hypotheses hold for a concrete world, history and path, and the reply is not trivial -/
+
+section ManagedExample
+open Txdbus.Obj.TreeProps Txdbus.Properties.C17
+
+/-- C17's two-class example chain (`ro` read-only string and `bc` int32 on org.a, `c` int32 on org.ab), three
+instances at `/a`, `/a/b`, `/a/bc`. -/
+private def exEnv : Env :=
+  { cfg := Props.Cfg.repaired, W := exWorld,
+    pathOf := fun n => if n = 0 then ['/', 'a'] else if n = 1 then ['/', 'a', '/', 'b'] else ['/', 'a', '/', 'b', 'c'] }
+
+private def exOps : List TreeProps.Op :=
+  [.assign 0 "p_bc".toList (.int 1), .assign 0 "p_c".toList (.int 2), .assign 0 "p_ro".toList (.str ['x']),
+   .assign 1 "p_bc".toList (.int 5), .assign 1 "p_c".toList (.int 6), .assign 1 "p_ro".toList (.str ['y']),
+   .assign 2 "p_bc".toList (.int 8), .assign 2 "p_c".toList (.int 9), .assign 2 "p_ro".toList (.str ['z']),
+   .export 0, .export 1, .export 2,
+   .set ['/', 'a', '/', 'b'] sA sBC (.int 7), .set ['/', 'a', '/', 'b'] sA sRO (.str ['n', 'o']),
+   .assign 2 "p_c".toList (.int 10), .unexport ['/', 'z']]
+
+theorem managed_example_ops_good : GoodOps exOps := by
+  intro op hop
+  simp only [exOps, List.mem_cons, List.not_mem_nil, or_false] at hop
+  rcases hop with rfl | rfl | rfl | rfl | rfl | rfl | rfl | rfl | rfl | rfl | rfl | rfl | rfl | rfl | rfl | rfl <;>
+    first | trivial | decide
+
+theorem managed_example_paths_valid : ∀ n, TreeProps.Op.export n ∈ exOps → ValidText (exEnv.pathOf n) := by
+  intro n hn
+  simp only [exOps, List.mem_cons, List.not_mem_nil, or_false, reduceCtorEq, false_or,
+    TreeProps.Op.export.injEq] at hn
+  rcases hn with rfl | rfl | rfl <;> decide
+
+/-- All hypotheses of `managed_eq_spec` hold for `/a` after `exOps` ... -/
+example := managed_eq_spec exEnv exWorld_elab exWorld_attrConsistent exWorld_modelled repaired_sound
+  (by decide) exOps managed_example_ops_good managed_example_paths_valid [['a']] (by decide) (by decide)
+
+/-- ... and the reply is the dictionary one expects: `/a/b` with the value 7 written by the remote Set (the
+Set of the read-only `ro` was refused), `/a/bc` with the value 10 assigned after the export; org.a's
+properties collected from both classes, the Properties interface with an empty dict. -/
+example :
+    handleManaged exEnv (TreeProps.run exEnv exOps) ['/', 'a'] =
+      .managed
+        [(['/', 'a', '/', 'b'],
+            [(sA, [(sBC, ['i'], .int 7), (sRO, ['s'], .str ['y'])]), (sAB, [(sC, ['i'], .int 6)]),
+             (Props.propsIfaceName, [])]),
+         (['/', 'a', '/', 'b', 'c'],
+            [(sA, [(sBC, ['i'], .int 8), (sRO, ['s'], .str ['z'])]), (sAB, [(sC, ['i'], .int 10)]),
+             (Props.propsIfaceName, [])])] := by
+  decide
+
+end ManagedExample
+
 end Txdbus.C16
 
 #print axioms Txdbus.C16.exports_eq_spec
@@ -294,7 +471,10 @@ end Txdbus.C16
 #print axioms Txdbus.C16.interface_names_complete
 #print axioms Txdbus.C16.interface_dict_complete
 #print axioms Txdbus.C16.table_objects_sendable
-#print axioms Txdbus.C16.managed_eq_spec_partial
+#print axioms Txdbus.C16.managed_entries_abstract
+#print axioms Txdbus.C16.managed_eq_spec
+#print axioms Txdbus.C16.managed_example_ops_good
+#print axioms Txdbus.C16.managed_example_paths_valid
 #print axioms Txdbus.C16.isPair_iff
 #print axioms Txdbus.C16.classify_ordinary_iff
 #print axioms Txdbus.C16.ping_answered_everywhere
